@@ -220,6 +220,17 @@ def _verify_replay_fresh(prop, path, clause, step, digest):
 
 
 # ----------------------------------------------------------------------------- evidence
+def _abbrev(o, limit=40):
+    """samples are written out for a reader: long item lists are cut with a note"""
+    if isinstance(o, dict):
+        return {k: _abbrev(v, limit) for k, v in o.items()}
+    if isinstance(o, (list, tuple)):
+        if len(o) > limit:
+            return [_abbrev(x, limit) for x in o[:8]] + [f"... ({len(o)} entries in total)"]
+        return [_abbrev(x, limit) for x in o]
+    return o
+
+
 def write_evidence(prop, doc):
     os.makedirs(EVIDENCE_DIR, exist_ok=True)
     path = os.path.join(EVIDENCE_DIR, f"{prop}.json")
@@ -367,7 +378,7 @@ def run_check(eng, prop, tier, seed, workers=None, budget_s=None, max_tasks=None
         states.update(r.get("states", []))
         if not r.get("faults"):
             n_faultfree += 1
-    samples = [r["sample"] for r in ok if r.get("sample") is not None][:3]
+    samples = [_abbrev(r["sample"]) for r in ok if r.get("sample") is not None][:3]
     if not samples and ok:
         samples = [{"task": ok[0]["task"]}]
     n_eval = len(ok)
@@ -385,6 +396,8 @@ def run_check(eng, prop, tier, seed, workers=None, budget_s=None, max_tasks=None
         "reach_probes": dict(sorted(probes.items())),
         "distinct_abstract_states": len(states),
         "runs_per_hour": int(n_eval / wall * 3600) if wall > 0 else 0,
+        "seeds_per_invocation": 1,
+        "seed_note": "one VERIF_SEED per invocation; every run derives its own generator from (engine, property, seed, task kind, task index)",
         "workers": workers,
         "tasks_planned": len(tasks),
         "tasks_skipped_by_budget": len(skipped),
